@@ -3,7 +3,7 @@
    Every theorem is closed by `exact`.  `chunks` is ANY way the OS may cut the output into reads
    (sizes 0, 1, around the preview limit, 8192, the cap, inside multi-byte characters). *)
 From RipV Require Import Base.Prelude Model.TaskLifecycle Model.Capture Proofs.CaptureProofs
-  Proofs.TaskLifecycleProofs Gen.PumpJoin Gen.TaskFailSites.
+  Proofs.TaskLifecycleProofs Proofs.PtyLifecycleProofs Gen.PumpJoin Gen.TaskFailSites.
 
 (* background tasks: the log of a stream is byte for byte the first `cap` bytes written, whatever the
    chunking, cap 0 included; the counters say so *)
@@ -329,3 +329,64 @@ Example c17_fail_sites_example :
   /\ trace (run_f [{| fs_where := FAfterSpawn; fs_returns := true |}] [FFail 0; FAct ASpawnFrame; FFail 0; FFail 0; FAct AStartRunning])
      = [LSpawned; LStatus 4].
 Proof. exact sites_example. Qed.
+
+(* ---------------- PTY tasks (run_pty_task) ----------------
+   `prun keeps sched` executes ANY list of actions of the PTY waiter's loop (its four select arms, the loop exit, the
+   closing emits) and of its four event sources: the child (exit), the cancel channel, the control channel (stdin /
+   resize / signal requests) and the reader thread (chunks read from the master side, end of output once every
+   descriptor of the slave side is closed).  `keeps` = the authority keeps its own descriptor of the slave side (the
+   code before /repo 35c2d72).  For BOTH values the frames are a prefix of a word of
+     Spawned . Running? . (Delta|Ack)* . (CancelReq . (Delta|Ack)* . Cancelled)? . Status
+   (Ack = stdin_written / resized / signalled) and a complete word exactly when the waiter has finished. *)
+Theorem c17_pty_lifecycle : forall (keeps : bool) (sched : list pact),
+  let s := prun keeps sched in
+  let t := ptrace s in
+  r_prefix_ok (precognise t) = true /\ (q_pc s = QEnd <-> r_complete (precognise t) = true).
+Proof. exact pty_lifecycle_language. Qed.
+Print Assumptions c17_pty_lifecycle.
+
+(* nothing follows the terminal status frame of a PTY task, whatever the four sources do afterwards *)
+Theorem c17_pty_terminal_is_last : forall (keeps : bool) (sched more : list pact),
+  q_pc (prun keeps sched) = QEnd -> ptrace (prun keeps (sched ++ more)) = ptrace (prun keeps sched).
+Proof. exact pty_terminal_is_last. Qed.
+Print Assumptions c17_pty_terminal_is_last.
+
+Example c17_pty_cancelled_task :
+  map pev_code (ptrace (prun false sched_pty_cancel)) = [0; 1; 12; 30; 31; 2; 12; 3; 23]
+  /\ q_pc (prun false sched_pty_cancel) = QEnd.
+Proof. exact sched_pty_cancel_trace. Qed.
+
+(* the task ENDS: from every reachable state of the waiter that dropped the slave there is a finite continuation (the
+   process terminates, the slave side is closed, the reader sees the end, the loop consumes what is queued) after
+   which the terminal status has been emitted *)
+Theorem c17_pty_task_can_always_end : forall sched : list pact, exists more : list pact,
+  q_pc (prun false (sched ++ more)) = QEnd.
+Proof. exact pty_can_always_end. Qed.
+Print Assumptions c17_pty_task_can_always_end.
+
+(* T1: `gen_pty_keeps_slave` (Gen/PumpJoin.v) is REGENERATED from run_pty_task on every run: false iff `<pair>.slave`
+   is mentioned exactly twice - by spawn_command and by a body-level drop(..) between the spawn and the wait loop -
+   and the pair is not moved or forgotten; `gen_pty_slave_ok` is the generated obligation *)
+Theorem c17_pty_task_can_always_end_code : forall sched : list pact, exists more : list pact,
+  q_pc (prun gen_pty_keeps_slave (sched ++ more)) = QEnd.
+Proof. exact (eq_ind_r (fun k => forall sched, exists more, q_pc (prun k (sched ++ more)) = QEnd) pty_can_always_end gen_pty_slave_ok). Qed.
+Print Assumptions c17_pty_task_can_always_end_code.
+
+(* S29 - the code before /repo 35c2d72 (the authority keeps the slave side open: the master never reports end of
+   output).  Once such a task is running it is in its loop in EVERY finite run: no terminal status, ever. *)
+Theorem c17_pty_kept_slave_never_terminal : forall sched : list pact,
+  let s := prun true sched in
+  In (PE LRunning) (ptrace s) -> q_pc s = QLoop /\ r_complete (precognise (ptrace s)) = false.
+Proof. exact pty_kept_slave_never_terminal. Qed.
+Print Assumptions c17_pty_kept_slave_never_terminal.
+
+(* the witness (`echo hi` on a terminal; replayed on the real code: corpus/C17/s29_pty_echo.json with 35c2d72
+   reverted): the same events end the repaired task and leave the old one running whatever happens afterwards *)
+Theorem c17_pty_output_never_closes_refuted :
+  exists sched : list pact,
+    q_pc (prun false sched) = QEnd
+    /\ In (PE LRunning) (ptrace (prun true sched))
+    /\ forall more : list pact,
+         q_pc (prun true (sched ++ more)) = QLoop /\ r_complete (precognise (ptrace (prun true (sched ++ more)))) = false.
+Proof. exact pty_output_never_closes_refuted. Qed.
+Print Assumptions c17_pty_output_never_closes_refuted.
